@@ -50,6 +50,7 @@ MCNext == MCSubmit \/ MCResubmit \/ MCRestart
 MCSpec == MCInit /\ [][MCNext]_mvars
 
 StateView == cvars
+RowsView  == <<rows, next>>
 
 Terminal == Len(hist) = MaxSteps \/ (next > MaxN /\ nres = MaxResub /\ nrst = MaxRestart)
 
@@ -84,11 +85,13 @@ QLoc    == {[k |-> "locator", a |-> 0, r |-> Locator]}
 QGetH   == {[k |-> "getheaders", a |-> [loc |-> SetToSeq(l), stop |-> s], r |-> GetHeaders(l, s, 2000)] :
               l \in LocSets, s \in {-1} \cup Ids}
 
-QTable == SetToSeq(
-            (IF "c04" \in QKinds THEN QByHash \cup QByHeight \cup QTips \cup QAnc \cup QCommon ELSE {})
-       \cup (IF "c02" \in QKinds THEN QVerify ELSE {})
-       \cup (IF "c08" \in QKinds THEN QPages ELSE {})
-       \cup (IF "c13" \in QKinds THEN QLoc \cup QGetH ELSE {}))
+\* one homogeneous set per kind (TLC cannot compare answers of different shapes), concatenated
+QTable ==
+     (IF "c04" \in QKinds THEN SetToSeq(QByHash) \o SetToSeq(QByHeight) \o SetToSeq(QTips) \o SetToSeq(QAnc) \o SetToSeq(QCommon)
+      ELSE <<>>)
+  \o (IF "c02" \in QKinds THEN SetToSeq(QVerify) ELSE <<>>)
+  \o (IF "c08" \in QKinds THEN SetToSeq(QPages) ELSE <<>>)
+  \o (IF "c13" \in QKinds THEN SetToSeq(QLoc) \o SetToSeq(QGetH) ELSE <<>>)
 
 EmitInv ==
   CASE Emit = "paths"  -> (Terminal => PrintT(ToJson([hist |-> hist])))
